@@ -1495,4 +1495,53 @@ theorem sim_run {m : W} {s : S} (hR : Rel m s) (h : List Step) :
     simp only [Writer.runFrom, WriterSpec.runFrom, e, i1]
     exact ⟨trivial, i2⟩
 
+/-! ### The window inside `Write`: readers closing between `accepting()` and `Reader.write` -/
+
+theorem sim_closeAll {m : W} {s : S} (hR : Rel m s) (cs : List RId) :
+    (Writer.closeAll m cs).2 = (WriterSpec.closeAll s cs).2 ∧
+      Rel (Writer.closeAll m cs).1 (WriterSpec.closeAll s cs).1 := by
+  induction cs generalizing m s with
+  | nil => exact ⟨rfl, hR⟩
+  | cons r rs ih =>
+    obtain ⟨e, hR'⟩ := sim_step hR (.closeR r)
+    obtain ⟨i1, i2⟩ := ih hR'
+    simp only [Writer.closeAll, WriterSpec.closeAll, e, i1]
+    exact ⟨trivial, i2⟩
+
+theorem isRequest_eq {m : W} {s : S} (hR : Rel m s) : Writer.isRequest m = WriterSpec.isRequest s := by
+  simp only [Writer.isRequest, WriterSpec.isRequest, hR.done, hR.readers, hR.closed]
+  cases hl : s.linked with
+  | nil => simp [accepting]
+  | cons a t => simp
+
+/-- One extended step (a base step, or a `Write` inside which readers close) of the model is one
+extended step of the specification. -/
+theorem sim_xstep {m : W} {s : S} (hR : Rel m s) (st : XStep) :
+    (Writer.xstep m st).2 = (WriterSpec.xstep s st).2 ∧ Rel (Writer.xstep m st).1 (WriterSpec.xstep s st).1 := by
+  have hq := isRequest_eq hR
+  cases st with
+  | base b =>
+    obtain ⟨e, hR'⟩ := sim_step hR b
+    simp only [Writer.xstep, WriterSpec.xstep, e, hq]
+    exact ⟨trivial, hR'⟩
+  | writeH v cs =>
+    simp only [Writer.xstep, WriterSpec.xstep, hq]
+    split
+    · obtain ⟨c1, c2⟩ := sim_closeAll hR cs
+      obtain ⟨e, hR'⟩ := sim_step c2 (.write v)
+      simp only [e, c1]
+      exact ⟨trivial, hR'⟩
+    · exact ⟨rfl, hR⟩
+
+theorem sim_xrun {m : W} {s : S} (hR : Rel m s) (h : List XStep) :
+    (Writer.xrunFrom m h).2 = (WriterSpec.xrunFrom s h).2 ∧
+    Rel (Writer.xrunFrom m h).1 (WriterSpec.xrunFrom s h).1 := by
+  induction h generalizing m s with
+  | nil => exact ⟨rfl, hR⟩
+  | cons st h ih =>
+    obtain ⟨e, hR'⟩ := sim_xstep hR st
+    obtain ⟨i1, i2⟩ := ih hR'
+    simp only [Writer.xrunFrom, WriterSpec.xrunFrom, e, i1]
+    exact ⟨trivial, i2⟩
+
 end Uniflow.WriterProofs
